@@ -1,53 +1,500 @@
 package interp
 
 // Goroutines of the target program as coroutines with explicit scheduling
-// decisions (used by C11/C14). In sequential mode the synchronisation
-// intrinsics are plain operations.
+// decisions (C11, C14). One host goroutine runs at a time (baton passing);
+// yield points are the synchronisation operations (sync.Mutex, sync.Pool,
+// sync/atomic, time.Sleep, goroutine start and exit). The scheduler's choice at
+// a yield point is a solver decision like any other, so the explorer enumerates
+// the interleavings up to a pre-emption bound. A vector-clock access log
+// reports unordered conflicting accesses (data races) in the explored
+// interleavings. Time is virtual: time.Now/Since read a symbolic clock that only
+// moves forward, time.Sleep(d) resumes at a symbolic instant in [t+d, t+d+J].
 
 import (
+	"fmt"
+	"go/types"
+
 	"golang.org/x/tools/go/ssa"
 )
 
 type coroKill struct{}
 
+type coroState int
+
+const (
+	coRunnable coroState = iota
+	coBlocked
+	coSleeping
+	coDone
+)
+
+type coro struct {
+	id     int
+	resume chan bool
+	state  coroState
+	waitOn *value // mutex
+	wake   *Term  // virtual wake-up instant (64-bit term)
+	vc     []int  // vector clock
+	panicV any
+}
+
+type accessRec struct {
+	wCoro  int
+	wClock int
+	rClock []int // per coroutine: clock of its last read
+}
+
+type scheduler struct {
+	coros       []*coro
+	cur         *coro
+	owner       map[*value]*coro
+	lockVC      map[*value][]int
+	preemptions int
+	maxPreempt  int
+	nchoice     int
+	mainDone    chan struct{}
+	log         map[*value]*accessRec
+	races       []string
+	raceCheck   bool
+	atomicVC    map[*value][]int
+	objVC       map[*value][]int // pooled objects: clock of the goroutine that Put them
+	// virtual time
+	now      *Term
+	nclock   int
+	jitter   uint64 // J in ns
+	maxAdv   uint64 // largest single advance of the clock at a yield point
+	deadlock bool
+	killed   bool
+}
+
 // Sched is non-nil while a concurrent harness is running.
 var Sched *scheduler
 
-type scheduler struct{}
+func newScheduler(maxPreempt int, raceCheck bool) *scheduler {
+	s := &scheduler{owner: map[*value]*coro{}, lockVC: map[*value][]int{}, maxPreempt: maxPreempt,
+		log: map[*value]*accessRec{}, raceCheck: raceCheck, atomicVC: map[*value][]int{}, objVC: map[*value][]int{},
+		now: TConst(64, 0), jitter: 1_000_000, maxAdv: 0}
+	main := &coro{id: 0, resume: make(chan bool), vc: []int{1}}
+	s.coros = []*coro{main}
+	s.cur = main
+	return s
+}
+
+func (s *scheduler) runnable() []*coro {
+	var rs []*coro
+	for _, c := range s.coros {
+		if c.state == coRunnable {
+			rs = append(rs, c)
+		}
+	}
+	return rs
+}
+
+func vcJoin(a, b []int) []int {
+	for len(a) < len(b) {
+		a = append(a, 0)
+	}
+	for i, v := range b {
+		if v > a[i] {
+			a[i] = v
+		}
+	}
+	return a
+}
+
+func vcCopy(a []int) []int { return append([]int(nil), a...) }
+
+func (c *coro) tick() {
+	for len(c.vc) <= c.id {
+		c.vc = append(c.vc, 0)
+	}
+	c.vc[c.id]++
+}
+
+// wakeSleepers makes every sleeper whose wake time has been reached runnable.
+func (s *scheduler) wakeSleepers() {
+	for _, c := range s.coros {
+		if c.state == coSleeping {
+			if X.decide(TBin(OpULe, c.wake, s.now), "wake") {
+				c.state = coRunnable
+			}
+		}
+	}
+}
+
+// advanceToSleeper moves the clock to the wake time of some sleeper (needed when nobody is runnable).
+func (s *scheduler) advanceToSleeper() bool {
+	var first *coro
+	for _, c := range s.coros {
+		if c.state != coSleeping {
+			continue
+		}
+		if first == nil || X.decide(TBin(OpULt, c.wake, first.wake), "earliest") {
+			first = c
+		}
+	}
+	if first == nil {
+		return false
+	}
+	s.now = first.wake
+	s.wakeSleepers()
+	return true
+}
+
+// pick chooses the next coroutine to run at a yield point.
+func (s *scheduler) pick(mustSwitch bool) *coro {
+	s.wakeSleepers()
+	rs := s.runnable()
+	for len(rs) == 0 {
+		if !s.advanceToSleeper() {
+			return nil
+		}
+		rs = s.runnable()
+	}
+	cur := s.cur
+	curRunnable := cur.state == coRunnable
+	// mustSwitch: cur gave up the processor itself (blocked, slept, exited); running
+	// somebody else then is not a pre-emption, and cur may continue if it is runnable again
+	if curRunnable && !mustSwitch && (s.preemptions >= s.maxPreempt || len(rs) == 1) {
+		return cur
+	}
+	var cands []*coro
+	if curRunnable {
+		cands = append(cands, cur)
+	}
+	for _, c := range rs {
+		if c != cur {
+			cands = append(cands, c)
+		}
+	}
+	if len(cands) == 0 {
+		return nil
+	}
+	chosen := cands[len(cands)-1]
+	if mustSwitch || s.preemptions < s.maxPreempt {
+		for _, c := range cands[:len(cands)-1] {
+			s.nchoice++
+			v := X.NewVar(fmt.Sprintf("sched%d", s.nchoice), 0, 1, nil)
+			if X.decide(v, "sched") {
+				chosen = c
+				break
+			}
+		}
+	} else {
+		chosen = cands[0]
+	}
+	if curRunnable && !mustSwitch && chosen != cur {
+		s.preemptions++
+	}
+	return chosen
+}
+
+// switchTo hands the baton to next and blocks the caller until it is resumed.
+func (s *scheduler) switchTo(next *coro) {
+	cur := s.cur
+	if next == cur {
+		return
+	}
+	s.cur = next
+	next.resume <- true
+	if ok := <-cur.resume; !ok {
+		panic(coroKill{})
+	}
+	if s.killed {
+		if cur.id != 0 {
+			panic(coroKill{})
+		}
+		s.propagate()
+		panic(pathAbort{"killed"})
+	}
+}
+
+func (s *scheduler) yieldPoint(what string, mustSwitch bool) {
+	if s.killed {
+		panic(coroKill{})
+	}
+	next := s.pick(mustSwitch)
+	if next == nil {
+		if mustSwitch {
+			s.deadlock = true
+			X.violation("deadlock", "all goroutines are blocked at "+what)
+		}
+		return
+	}
+	X.Intrinsics["yield:"+what]++
+	s.switchTo(next)
+}
 
 func yield(what string) {
 	if Sched != nil {
-		schedYield(what)
+		Sched.yieldPoint(what, false)
 	}
 }
 
-func logAccess(addr *value, write, atomic bool) {
-	if Sched != nil {
-		schedAccess(addr, write, atomic)
-	}
-}
+func schedYield(what string) { yield(what) }
 
 func mutexLock(m *value) {
-	if Sched != nil {
-		schedLock(m)
+	s := Sched
+	if s == nil || s.killed {
+		return
 	}
+	s.yieldPoint("Lock", false)
+	for s.owner[m] != nil {
+		s.cur.state = coBlocked
+		s.cur.waitOn = m
+		s.yieldPoint("Lock-blocked", true)
+	}
+	s.owner[m] = s.cur
+	s.cur.vc = vcJoin(s.cur.vc, s.lockVC[m])
 }
 
 func mutexUnlock(m *value) {
-	if Sched != nil {
-		schedUnlock(m)
+	s := Sched
+	if s == nil || s.killed {
+		return
 	}
+	if s.owner[m] != s.cur {
+		X.violation("unlock-of-unlocked-mutex", "")
+	}
+	s.lockVC[m] = vcCopy(s.cur.vc)
+	s.cur.tick()
+	delete(s.owner, m)
+	for _, c := range s.coros {
+		if c.state == coBlocked && c.waitOn == m {
+			c.state = coRunnable
+			c.waitOn = nil
+		}
+	}
+	s.yieldPoint("Unlock", false)
 }
 
+// spawnGoroutine implements the go statement.
 func spawnGoroutine(fr *frame, instr *ssa.Go, fn value, args []value) {
-	if Sched == nil {
+	s := Sched
+	if s == nil {
 		panic(engineBug("go statement outside a concurrent harness: " + instr.String()))
 	}
-	schedSpawn(fr, fn, args)
+	s.spawn(fr.i, fn, args)
+	s.yieldPoint("go", false)
 }
 
-func schedYield(what string)                        { panic(engineBug("scheduler not built")) }
-func schedAccess(addr *value, write, atomic bool)   {}
-func schedLock(m *value)                            { panic(engineBug("scheduler not built")) }
-func schedUnlock(m *value)                          { panic(engineBug("scheduler not built")) }
-func schedSpawn(fr *frame, fn value, args []value)  { panic(engineBug("scheduler not built")) }
+func (s *scheduler) spawn(i *interpreter, fn value, args []value) *coro {
+	c := &coro{id: len(s.coros), resume: make(chan bool), vc: vcCopy(s.cur.vc)}
+	s.cur.tick()
+	s.coros = append(s.coros, c)
+	c.tick()
+	go func() {
+		if ok := <-c.resume; !ok {
+			return
+		}
+		defer func() {
+			r := recover()
+			c.state = coDone
+			if _, isKill := r.(coroKill); isKill {
+				return // torn down at the end of a path
+			}
+			main := s.coros[0]
+			if r != nil {
+				// a panic ended this goroutine: re-raise it in the main coroutine
+				c.panicV = r
+				s.killed = true
+				s.cur = main
+				main.resume <- true
+				return
+			}
+			c.tick()
+			var next *coro
+			func() {
+				defer func() {
+					if r2 := recover(); r2 != nil {
+						c.panicV = r2
+						s.killed = true
+						next = main
+					}
+				}()
+				next = s.pick(true)
+			}()
+			if next == nil {
+				next = main
+			}
+			s.cur = next
+			next.resume <- true
+		}()
+		call(i, nil, 0, fn, args)
+	}()
+	return c
+}
+
+// waitAll blocks the main coroutine until every other coroutine has finished.
+func (s *scheduler) waitAll() {
+	for {
+		if s.killed {
+			s.propagate()
+		}
+		alive := false
+		for _, c := range s.coros[1:] {
+			if c.state != coDone {
+				alive = true
+			}
+		}
+		if !alive {
+			break
+		}
+		s.cur.state = coBlocked
+		next := s.pick(true)
+		s.cur.state = coRunnable
+		if next == nil || next == s.cur {
+			s.deadlock = true
+			X.violation("deadlock", "main waits for goroutines that are all blocked")
+		}
+		s.switchTo(next)
+		if s.killed {
+			s.propagate()
+		}
+	}
+	for _, c := range s.coros[1:] {
+		s.cur.vc = vcJoin(s.cur.vc, c.vc)
+	}
+}
+
+// propagate re-raises in the main coroutine a panic that ended another coroutine.
+func (s *scheduler) propagate() {
+	for _, c := range s.coros[1:] {
+		if c.panicV != nil {
+			p := c.panicV
+			c.panicV = nil
+			panic(p)
+		}
+	}
+}
+
+// teardown kills coroutines that are still parked (end of a path).
+func (s *scheduler) teardown() {
+	s.killed = true
+	for _, c := range s.coros[1:] {
+		if c.state != coDone {
+			c.state = coDone
+			c.resume <- false // parked coroutines are all waiting on their resume channel
+		}
+	}
+}
+
+// ---------------------------------------------------------------- access log (race detection)
+
+func logAccess(addr *value, write, atomic bool) {
+	s := Sched
+	if s == nil || !s.raceCheck || addr == nil || s.killed {
+		return
+	}
+	c := s.cur
+	if atomic {
+		if write {
+			s.atomicVC[addr] = vcJoin(vcCopy(c.vc), s.atomicVC[addr])
+			c.tick()
+		} else {
+			c.vc = vcJoin(c.vc, s.atomicVC[addr])
+		}
+		return
+	}
+	rec := s.log[addr]
+	if rec == nil {
+		rec = &accessRec{wCoro: -1}
+		s.log[addr] = rec
+	}
+	hb := func(co, clk int) bool { // did access (co, clk) happen before the current point of c?
+		if co == c.id || co < 0 {
+			return true
+		}
+		return co < len(c.vc) && c.vc[co] >= clk
+	}
+	if !hb(rec.wCoro, rec.wClock) {
+		s.races = append(s.races, fmt.Sprintf("unordered write by goroutine %d and %s by goroutine %d", rec.wCoro, map[bool]string{true: "write", false: "read"}[write], c.id))
+	}
+	if write {
+		for co, clk := range rec.rClock {
+			if clk > 0 && !hb(co, clk) {
+				s.races = append(s.races, fmt.Sprintf("unordered read by goroutine %d and write by goroutine %d", co, c.id))
+			}
+		}
+		rec.wCoro, rec.wClock = c.id, c.vc[c.id]
+		rec.rClock = nil
+	} else {
+		for len(rec.rClock) <= c.id {
+			rec.rClock = append(rec.rClock, 0)
+		}
+		rec.rClock[c.id] = c.vc[c.id]
+	}
+}
+
+// poolTransfer records the happens-before edge Put -> Get of a pooled object.
+func poolPut(obj value) {
+	s := Sched
+	if s == nil {
+		return
+	}
+	if p, ok := obj.(iface); ok {
+		if ptr, ok := p.v.(*value); ok {
+			s.objVC[ptr] = vcCopy(s.cur.vc)
+		}
+	}
+	s.cur.tick()
+}
+
+func poolGet(obj value) {
+	s := Sched
+	if s == nil {
+		return
+	}
+	if p, ok := obj.(iface); ok {
+		if ptr, ok := p.v.(*value); ok {
+			s.cur.vc = vcJoin(s.cur.vc, s.objVC[ptr])
+		}
+	}
+}
+
+// ---------------------------------------------------------------- virtual time
+
+func (s *scheduler) advance(d *Term, withJitter bool) *Term {
+	t := TBin(OpAdd, s.now, d)
+	if withJitter && s.jitter > 0 {
+		s.nclock++
+		j := X.NewVar(fmt.Sprintf("jit%d", s.nclock), 64, 0, rangeDom(0, s.jitter, false))
+		t = TBin(OpAdd, t, j)
+	}
+	return t
+}
+
+// timeSleep implements time.Sleep(d) for the current coroutine.
+func timeSleep(d value) {
+	s := Sched
+	if s == nil || s.killed {
+		return
+	}
+	dt, _ := termOf(d)
+	c := s.cur
+	c.wake = s.advance(dt, true)
+	c.state = coSleeping
+	if c.id == 0 {
+		// the main coroutine sleeping = the harness lets time pass
+		s.yieldPoint("Sleep", true)
+		return
+	}
+	s.yieldPoint("Sleep", true)
+}
+
+// clockNow returns the current virtual instant; at a reading the clock may have
+// moved on by a symbolic amount (bounded by maxAdv) since the last reading.
+func clockNow() *Term {
+	s := Sched
+	if s == nil {
+		return TConst(64, 0)
+	}
+	if s.maxAdv > 0 {
+		s.nclock++
+		a := X.NewVar(fmt.Sprintf("adv%d", s.nclock), 64, 0, rangeDom(0, s.maxAdv, false))
+		s.now = TBin(OpAdd, s.now, a)
+	}
+	return s.now
+}
+
+var _ = types.Bool
